@@ -13,7 +13,7 @@ def showO (o : Outcome Dyn) : String := showOutcome o
 def runTyped (fS tyS srcS extS writtenS back1S back2S : String) : Result :=
   match Format.ofName? fS, Ty.ofName? tyS, Dyn.parse? srcS with
   | some f, some ty, some v =>
-    let env : Env := ⟨genTables, parseExt extS⟩
+    let env : Env := ⟨drvTables, parseExt extS⟩
     let key : Bytes := [0x63]
     let t : Tmpl := withCol [] key f ty
     -- model: CreateRow(map) -> MarshalJSON -> CreateRowEmpty -> UnmarshalJSON -> Get
@@ -79,7 +79,7 @@ def runImp (prop fS tyS srcS extS implS0 : String) : Result :=
     | _ => (implS0, none)
   match Format.ofName? fS, Ty.ofName? tyS, Dyn.parse? srcS, parseOutcome implS with
   | some f, some ty, some v, some impl =>
-    let env : Env := ⟨genTables, parseExt extS⟩
+    let env : Env := ⟨drvTables, parseExt extS⟩
     let mc := importCell env f ty v
     let m : Outcome Dyn :=
       match mc with
@@ -164,7 +164,7 @@ def runSetCol (prop fS tyS srcS extS implS0 : String) : Result :=
     | _ => (implS0, none)
   match Format.ofName? fS, Ty.ofName? tyS, Dyn.parse? srcS, parseOutcome implS with
   | some f, some ty, some v, some impl =>
-    let env : Env := ⟨genTables, parseExt extS⟩
+    let env : Env := ⟨drvTables, parseExt extS⟩
     let isPanic := match impl with | .panic _ => true | _ => false
     let p : Option String :=
       if isPanic then some "panic"
@@ -225,7 +225,7 @@ def containsSub (hay needle : Bytes) : Bool :=
   (List.range (hay.length + 1 - n)).any fun i => (hay.drop i).take n == needle
 
 def runTwice (zone tiS toS lineS extS firstS secondS hint : String) : Result :=
-  let env : Env := ⟨genTables, parseExt extS⟩
+  let env : Env := ⟨drvTables, parseExt extS⟩
   match tmplOf env tiS, tmplOf env toS, unhexTok lineS, parseImpl firstS with
   | some ti, some to, some line, some first =>
     let second := if secondS == "-" then none else parseImpl secondS
